@@ -372,9 +372,10 @@ def run_property(spec, tier: str, only: str | None = None, jobs: int = 16):
         "wall_s": round(wall, 1),
         "violations": len(violations),
     }
-    (VERIF / "evidence").mkdir(exist_ok=True)
+    evdir = Path(os.environ.get("VERIF_EVIDENCE_DIR", str(VERIF / "evidence")))  # redirected when trying seeded changes
+    evdir.mkdir(parents=True, exist_ok=True)
     if not only:
-        (VERIF / "evidence" / f"{pid}.json").write_text(json.dumps(ev, indent=1, default=str))
+        (evdir / f"{pid}.json").write_text(json.dumps(ev, indent=1, default=str))
 
     # ---- console report
     for e in report:
